@@ -53,6 +53,9 @@ func fatAllScens(oracle string, quick bool, depth int) []*fatScen {
 		hd = 3
 	}
 	out = append(out, fatHighClusterScenario(oracle, hd))
+	for _, c := range []fatCfg{{Type: 12, Size: 4<<20 + 512, Start: 512}, {Type: 16, Size: 4400 << 10, Start: 0}, {Type: 32, Size: 1 << 20, Start: 1 << 20}} {
+		out = append(out, fatBigChainScenario(c, oracle, hd))
+	}
 	out = append(out, fatRootFullScenario(fatCfg{Type: 12, Size: 64 << 10}, oracle, depth+1))
 	return out
 }
